@@ -50,7 +50,7 @@ PKGPATH = {"a": MOD + "/a", "ab": MOD + "/a/b", "abc": MOD + "/a/b/c", "k": MOD 
 PKGNAME = {"a": "apk", "ab": "bpk", "abc": "cpk", "k": "kpk"}
 GO_TOOL_FILES = ("w/go.mod", "w/go.sum")      # inputs the go command may touch; never written by mockery
 ARGV = {"run": [], "showconfig": ["showconfig"], "version": ["version"], "help": ["--help"], "badflag": ["--no-such-flag"],
-        "badcmd": ["frobnicate"], "init": ["init", MOD + "/a"], "migrate": ["migrate"]}
+        "badcmd": ["frobnicate"], "completion": ["completion", "bash"], "helpcmd": ["help", "showconfig"], "init": ["init", MOD + "/a"], "migrate": ["migrate"]}
 V2DOC = {"with-expecter": True, "mockname": "M{{.InterfaceName}}", "outpkg": "mocks",
          "packages": {MOD + "/a": {"config": {"all": True}}, MOD + "/k": {"interfaces": {"K1": {"config": {"mockname": "Kay"}}}}}}
 MIGRATE_OUT = {"default": [], "rel": ["--outfile", "out/v3.yml"]}
@@ -120,11 +120,17 @@ def config_doc(world, R, decoy=False):
     return doc
 
 
+BOOL_SPELL = {"lower": ("true", "false"), "upper": ("TRUE", "FALSE"), "title": ("True", "False"), "mixed": ("tRuE", "fAlSe"),
+              "one": ("1", "0")}
+
+
 def env_of(world, R):
+    """MOCKERY_<PARAM>: the parameter's name upper-cased with '-' spelled '_'; booleans in the world's spelling"""
     env = {}
+    t, f = BOOL_SPELL[world.get("envspell", "lower")]
     for p, v in world["cfg"].get("env", {}).items():
         x = value(p, v, R)
-        env["MOCKERY_" + p.upper().replace("-", "_")] = ("true" if x else "false") if isinstance(x, bool) else str(x)
+        env["MOCKERY_" + p.upper().replace("-", "_")] = (t if x else f) if isinstance(x, bool) else ",".join(x) if isinstance(x, list) else str(x)
     return env
 
 
@@ -166,6 +172,8 @@ class World:
         if self.world.get("tagged"):
             files["w/k/svc.go"] = "package kpk\n\ntype K1 interface{ F(x int) string }\n"
             files["w/k/extra.go"] = "//go:build extra\n\npackage kpk\n\ntype K2 interface{ G() }\n"
+        if self.world.get("container"):
+            del files["w/a/svc.go"]                    # package a: a directory with sub-packages only
         if self.world["pkgfault"] == "parse-error":
             files["w/k/broken.go"] = "package kpk\n\nfunc broken( {\n"
         vlib.write_files(d, files)
@@ -300,7 +308,7 @@ def judge_showconfig(ctx, W, r):
     base = {"tag": w["tag"], "argv": "showconfig", "shape": w["shape"], "fault": w["pkgfault"]}
 
     def bad(kind, **kw):
-        out.append((dict(base, kind=kind, **{k: v for k, v in kw.items() if k in ("param", "node")}),
+        out.append((dict(base, kind=kind, **{k: v for k, v in kw.items() if k in ("param", "node", "what")}),
                     {"case": W.case, "root": R, "args": W.args, "env": W.env, "observed": kw, "run": r.brief()}))
 
     if exp["exit"] != "zero" or r.code != 0:
@@ -324,6 +332,19 @@ def judge_showconfig(ctx, W, r):
                 g = g or {}
             if g != e:
                 bad("showconfig-value", node=node, param=p, expected=e, got=g)
+
+    # round trip: what showconfig prints is "a yaml representation of the config": fed back through --config it must be
+    # accepted by the loader and show the same again (the file path itself aside)
+    if w["lay"]["mode"].startswith("search"):
+        rt = Path(R) / "roundtrip.yml"
+        rt.write_text(r.out)
+        r2 = pipetrace.run(ctx, W.cwd, args=["--config", str(rt), "showconfig"], env=W.env, timeout=120)
+        strip = lambda t: [ln for ln in t.splitlines() if not ln.strip().startswith("config:")]  # noqa: E731
+        if r2.code != 0:
+            bad("showconfig-roundtrip", what="output-not-loadable", exit=r2.code, err=(r2.err + r2.out)[-300:])
+        elif strip(r2.out) != strip(r.out):
+            bad("showconfig-roundtrip", what="output-changes-when-loaded")
+        rt.unlink()
 
     cmp("top", doc.get("Config", {}), exp["top"])
     want_pkgs = {t["path"]: t["cfg"] for t in exp["table"].values()}
@@ -404,8 +425,10 @@ def judge_simple(ctx, W, r):
 
     if w["argv"] == "version" and not re.match(r"^v\d+\.\d+\.\d+", r.out.strip()):
         bad("version-output", got=r.out[:200])
-    if w["argv"] == "help" and "Usage:" not in r.out:
+    if w["argv"] in ("help", "helpcmd") and "Usage:" not in r.out:
         bad("help-output", got=r.out[:200])
+    if w["argv"] == "completion" and "completion" not in r.out[:200]:
+        bad("completion-output", got=r.out[:200])
     if w["argv"] in ("badflag", "badcmd") and "unknown" not in (r.err + r.out).lower():
         bad("usage-error-undiagnosed", got=(r.err + r.out)[:200])
     if r.trace:
@@ -498,6 +521,17 @@ def vacuity(cases):
          "a successful run whose files use different templates")
     any_(lambda c: Wd(c)["tag"] == "perfile" and len({i["force"] for i in E(c)["infos"]}) == 2, "force-file-write differing between files")
     any_(lambda c: Wd(c)["tag"] == "perfile" and len({i["req"] for i in E(c)["infos"]}) == 2, "require-template-schema-exists differing between files")
+    any_(lambda c: Wd(c).get("container") and Wd(c)["argv"] == "run" and E(c)["exit"] == "zero" and len(E(c)["infos"]) >= 2,
+         "a recursive container package whose sub-packages are mocked")
+    any_(lambda c: Wd(c).get("container") and Wd(c)["argv"] == "run" and E(c)["exit"] == "nonzero", "a package without Go files that is no container")
+    any_(lambda c: Wd(c)["tag"] == "env" and Wd(c).get("envspell") == "one" and E(c)["exit"] == "nonzero", "a boolean MOCKERY_ variable in an unrecognised spelling")
+    any_(lambda c: Wd(c)["tag"] == "env" and Wd(c).get("envspell") == "upper" and E(c)["exit"] == "zero", "a boolean MOCKERY_ variable spelled TRUE")
+    for prm in ("all", "recursive", "force-file-write", "require-template-schema-exists", "dir", "filename", "structname", "pkgname",
+                "template", "formatter", "include-interface-regex", "exclude-interface-regex", "log-level", "build-tags"):
+        any_(lambda c, q=prm: Wd(c)["tag"] == "env" and q in Wd(c)["cfg"].get("env", {}) and q not in Wd(c)["cfg"].get("root", {}),
+             "MOCKERY_ variable alone for " + prm)
+        any_(lambda c, q=prm: Wd(c)["tag"] == "env" and q in Wd(c)["cfg"].get("env", {}) and q in Wd(c)["cfg"].get("root", {}),
+             "MOCKERY_ variable against the config file for " + prm)
     any_(lambda c: Wd(c).get("cfgkind") == "empty" and Wd(c)["argv"] == "run", "a run over an empty config file")
     any_(lambda c: Wd(c).get("cfgkind") == "nopackages" and Wd(c)["argv"] == "showconfig", "showconfig of a config without packages")
     for lvl in ("env", "root", "flag", "a", "a.A1", "a.A1.1"):
